@@ -51,5 +51,6 @@ def plan(ctx):
                 assumptions=["NullEngine", "the DefaultRate methods are thin match-arm delegations, so equal Results and equal state on the exercised arms (add_original_shard / add_recovery_shard) plus equal construction state (b) carry the dedicated codecs' round behaviour (C01/C02) over to the default codec; the encode()/decode() arms themselves are NOT executed (see outside)",
                              "ReedSolomonEncoder/Decoder are newtype wrappers of DefaultRate*<DefaultEngine> (one-line delegations); their supports() is decided in C08, their error paths in C10"],
                 outside=["byte-for-byte comparison of complete rounds through DefaultRate/ReedSolomon/one-shot objects: NOT decided (the codec state inside an enum payload makes CBMC lose constant propagation; one (2,1) encode round exceeded 15 min versus 18 s for the dedicated codec)",
-                         "configurations beyond those enumerated (22 for new, 12 reset pairs)"],
+                         "a successful reset of a DefaultRateDecoder (CBMC out of memory even for (1,2)->(1,1)): its rate choice is decided only through the rule (a), construction (b) and the encoder's reset; failing resets: C06/C07",
+                         "configurations beyond those enumerated (22 for new, 12 encoder reset pairs)"],
                 trusted_base=COMMON_TRUSTED)
